@@ -331,6 +331,11 @@ func ruleSettings(c *Ctx) {
 				}
 				parts = append([]string{s2.Sel.Name}, parts...)
 				e = s2.X
+				// the settings value may itself be a part of something else (change.after.Limits): the path starts
+				// where the settings struct is reached
+				if t := finfo.TypeOf(e); t != nil && strings.HasSuffix(types.TypeString(t, nil), "server.serverSettings") {
+					break
+				}
 			}
 			bt := finfo.TypeOf(e)
 			if bt == nil {
